@@ -224,6 +224,31 @@ def oracle_map_to_index(root, attr, key, value):
     return 'ok', new
 
 
+def shared_node(node, seen=None):
+    """a node object reachable at two positions, or None: the transforms
+    must hand a TREE on to recognition (A-TREE preservation, the ownership
+    condition every contract of this framework relies on: Loader.
+    __process_node writes the tag of the recognised type into each node, so
+    a node shared between a key and a value position gets one tag for
+    both)"""
+    seen = seen if seen is not None else {}
+    if id(node) in seen:
+        return node
+    seen[id(node)] = node
+    if isinstance(node, yaml.SequenceNode):
+        for x in node.value:
+            r = shared_node(x, seen)
+            if r is not None:
+                return r
+    elif isinstance(node, yaml.MappingNode):
+        for k, v in node.value:
+            for x in (k, v):
+                r = shared_node(x, seen)
+                if r is not None:
+                    return r
+    return None
+
+
 def run_one(what, method_args, root_data, oracle):
     global evals, skipped
     node = mk(root_data)
@@ -237,6 +262,11 @@ def run_one(what, method_args, root_data, oracle):
     try:
         getattr(n, what)(*method_args)
         got = ('ok', to_data(n.yaml_node))
+        sh = shared_node(n.yaml_node)
+        if sh is not None:
+            record(what + repr(method_args) + ' [A-TREE preservation]',
+                   root_data, 'node object %r occurs at two positions' % (
+                       getattr(sh, 'value', None),), 'a tree')
     except yatiml.SeasoningError:
         got = ('raise', 'SeasoningError')
     except Exception as ex:      # noqa
